@@ -1166,7 +1166,7 @@ fn parse_mapping(mapping: &Mapping) -> crate::Result<Expression> {
                             } else {
                                 boolean = true;
                                 rest.push(Expression::BooleanExpression(
-                                    Box::new(e.clone()),
+                                    Box::new(unmatched_e.clone()),
                                     BoolSym::Equal,
                                     Box::new(Expression::Boolean(*b)),
                                 ))
@@ -1192,7 +1192,7 @@ fn parse_mapping(mapping: &Mapping) -> crate::Result<Expression> {
                                 } else {
                                     number = true;
                                     rest.push(Expression::BooleanExpression(
-                                        Box::new(e.clone()),
+                                        Box::new(unmatched_e.clone()),
                                         BoolSym::Equal,
                                         Box::new(Expression::Integer(i)),
                                     ));
@@ -1213,7 +1213,7 @@ fn parse_mapping(mapping: &Mapping) -> crate::Result<Expression> {
                                 } else {
                                     number = true;
                                     rest.push(Expression::BooleanExpression(
-                                        Box::new(e.clone()),
+                                        Box::new(unmatched_e.clone()),
                                         BoolSym::Equal,
                                         Box::new(Expression::Float(i)),
                                     ))
@@ -1315,7 +1315,7 @@ fn parse_mapping(mapping: &Mapping) -> crate::Result<Expression> {
                         Pattern::Equal(i) => {
                             number = true;
                             rest.push(Expression::BooleanExpression(
-                                Box::new(e.clone()),
+                                Box::new(unmatched_e.clone()),
                                 BoolSym::Equal,
                                 Box::new(Expression::Integer(i)),
                             ))
@@ -1323,7 +1323,7 @@ fn parse_mapping(mapping: &Mapping) -> crate::Result<Expression> {
                         Pattern::GreaterThan(i) => {
                             number = true;
                             rest.push(Expression::BooleanExpression(
-                                Box::new(e.clone()),
+                                Box::new(unmatched_e.clone()),
                                 BoolSym::GreaterThan,
                                 Box::new(Expression::Integer(i)),
                             ))
@@ -1331,7 +1331,7 @@ fn parse_mapping(mapping: &Mapping) -> crate::Result<Expression> {
                         Pattern::GreaterThanOrEqual(i) => {
                             number = true;
                             rest.push(Expression::BooleanExpression(
-                                Box::new(e.clone()),
+                                Box::new(unmatched_e.clone()),
                                 BoolSym::GreaterThanOrEqual,
                                 Box::new(Expression::Integer(i)),
                             ))
@@ -1339,7 +1339,7 @@ fn parse_mapping(mapping: &Mapping) -> crate::Result<Expression> {
                         Pattern::LessThan(i) => {
                             number = true;
                             rest.push(Expression::BooleanExpression(
-                                Box::new(e.clone()),
+                                Box::new(unmatched_e.clone()),
                                 BoolSym::LessThan,
                                 Box::new(Expression::Integer(i)),
                             ))
@@ -1347,7 +1347,7 @@ fn parse_mapping(mapping: &Mapping) -> crate::Result<Expression> {
                         Pattern::LessThanOrEqual(i) => {
                             number = true;
                             rest.push(Expression::BooleanExpression(
-                                Box::new(e.clone()),
+                                Box::new(unmatched_e.clone()),
                                 BoolSym::LessThanOrEqual,
                                 Box::new(Expression::Integer(i)),
                             ))
@@ -1355,7 +1355,7 @@ fn parse_mapping(mapping: &Mapping) -> crate::Result<Expression> {
                         Pattern::FEqual(i) => {
                             number = true;
                             rest.push(Expression::BooleanExpression(
-                                Box::new(e.clone()),
+                                Box::new(unmatched_e.clone()),
                                 BoolSym::Equal,
                                 Box::new(Expression::Float(i)),
                             ))
@@ -1363,7 +1363,7 @@ fn parse_mapping(mapping: &Mapping) -> crate::Result<Expression> {
                         Pattern::FGreaterThan(i) => {
                             number = true;
                             rest.push(Expression::BooleanExpression(
-                                Box::new(e.clone()),
+                                Box::new(unmatched_e.clone()),
                                 BoolSym::GreaterThan,
                                 Box::new(Expression::Float(i)),
                             ))
@@ -1371,7 +1371,7 @@ fn parse_mapping(mapping: &Mapping) -> crate::Result<Expression> {
                         Pattern::FGreaterThanOrEqual(i) => {
                             number = true;
                             rest.push(Expression::BooleanExpression(
-                                Box::new(e.clone()),
+                                Box::new(unmatched_e.clone()),
                                 BoolSym::GreaterThanOrEqual,
                                 Box::new(Expression::Float(i)),
                             ))
@@ -1379,7 +1379,7 @@ fn parse_mapping(mapping: &Mapping) -> crate::Result<Expression> {
                         Pattern::FLessThan(i) => {
                             number = true;
                             rest.push(Expression::BooleanExpression(
-                                Box::new(e.clone()),
+                                Box::new(unmatched_e.clone()),
                                 BoolSym::LessThan,
                                 Box::new(Expression::Float(i)),
                             ))
@@ -1387,7 +1387,7 @@ fn parse_mapping(mapping: &Mapping) -> crate::Result<Expression> {
                         Pattern::FLessThanOrEqual(i) => {
                             number = true;
                             rest.push(Expression::BooleanExpression(
-                                Box::new(e.clone()),
+                                Box::new(unmatched_e.clone()),
                                 BoolSym::LessThanOrEqual,
                                 Box::new(Expression::Float(i)),
                             ))
